@@ -7,6 +7,7 @@ import (
 	"fmt"
 	"math/rand"
 	"net"
+	"runtime"
 	"strings"
 	"sync"
 	"testing/synctest"
@@ -365,13 +366,31 @@ func (w *World) event(ev LifeEvent) {
 	w.callbacksInFlight++
 	w.mu.Unlock()
 	if d > 0 {
-		time.Sleep(d)
+		// In the virtual-time bubble a callback may only sleep where the library holds no mutex:
+		// a goroutine waiting for that mutex is not durably blocked, so the virtual clock would
+		// never advance and the sleep never end. perm-/chan-/chan+ run under allocation (and, during
+		// Close, manager) locks: there the callback yields the processor many times instead, which
+		// lets every other goroutine run while it is "slow" without needing time to pass.
+		if w.Bubble && (ev.Kind == "perm-" || ev.Kind == "chan-" || ev.Kind == "chan+") {
+			for i := 0; i < 300; i++ {
+				runtime.Gosched()
+			}
+		} else {
+			time.Sleep(d)
+		}
 	}
 	if cb != nil {
 		cb(ev)
 	}
 	w.mu.Lock()
 	w.callbacksInFlight--
+	w.mu.Unlock()
+}
+
+// SetEventDelay makes the lifecycle callback of the given kind sleep d (virtual time).
+func (w *World) SetEventDelay(kind string, d time.Duration) {
+	w.mu.Lock()
+	w.EventDelay[kind] = d
 	w.mu.Unlock()
 }
 
